@@ -10,6 +10,12 @@ R10a on the non-failing path of StopEngineCommand._run and RestartEngineCommand.
 R10b Tag.on_stop ends a simulation (stop_simulation under `simulated`); every subclass of Tag that
      overrides on_stop calls super().on_stop() on all paths.
 R10c EventEmitter.emit_on_stop calls on_stop on every listener.
+R10d Stop can only cancel what it can see: cancel_commands walks the *executing requests*, so every live UOD command
+     instance must belong to an executing request or be finalized. In CommandManager._execute_uod_command every path
+     from the acquisition of the instance (create_command / get_command) to a *raising* exit finalizes the instance
+     (_finalize_command, _cancel_command with its default finalize=True, or finalize()) - a failed command whose request
+     is dropped while its instance stays registered survives Stop and Restart and swallows the next request of that name;
+     and _finalize_command reaches _executing_command_done on every path (request and instance leave together).
 Decides the clean-up structure; run-log completeness at every stop point is not decided.
 """
 from __future__ import annotations
@@ -48,7 +54,8 @@ def _order_check(ctx, f, names: list[str], start=None):
 def run(ctx) -> None:
     prog = ctx.prog
     for r, d in [("R10a", "ordered must-call sets of Stop and Restart"), ("R10b", "on_stop super chain ends simulations"),
-                 ("R10c", "emit_on_stop reaches every listener")]:
+                 ("R10c", "emit_on_stop reaches every listener"),
+                 ("R10d", "a failing uod command is finalized before its exception leaves the command manager")]:
         ctx.rule(r, d)
     impl = prog.module(IMPL)
     stop = impl.classes["StopEngineCommand"].methods["_run"]
@@ -167,3 +174,51 @@ def run(ctx) -> None:
         ctx.ok("R10c", "emit_on_stop calls on_stop on every listener")
     else:
         ctx.fail("R10c", em, em.node, "emit_on_stop calls on_stop on every listener", "tags are not told that the run stopped")
+
+    # ---- R10d
+    CMQ = "openpectus.engine.command_manager:CommandManager"
+    xu = prog.func(f"{CMQ}._execute_uod_command")
+    ctx.analysed(xu)
+    gx = cfg_of(xu)
+    acq = [n for n in gx.nodes if any(call_attr(c) in ("create_command", "get_command") for c in n.calls())]
+    if not acq:
+        raise AnchorError("_execute_uod_command: instance acquisition (create_command/get_command) not found")
+
+    def finalizes(n) -> bool:
+        for c in n.calls():
+            nm = call_attr(c)
+            if nm in ("_finalize_command", "finalize"):
+                return True
+            if nm == "_cancel_command":
+                fin = next((k.value for k in c.keywords if k.arg == "finalize"), c.args[1] if len(c.args) > 1 else None)
+                if fin is None or (isinstance(fin, ast.Constant) and fin.value is True):
+                    return True
+        return False
+
+    def already_final(nid, d, lab) -> bool:
+        # leaving a test `X.is_finalized()` on its true edge (or `not X.is_finalized()` on its false edge): nothing left to finalize
+        nn = gx.nodes[nid]
+        if nn.kind != "test":
+            return False
+        t = norm(nn.ast)
+        if t.endswith(".is_finalized()"):
+            return lab == ("F" if t.startswith("not ") else "T")
+        return False
+    for n in acq:
+        inst = f"_execute_uod_command: instance from `{n.text()[:45]}` is finalized on every raising exit"
+        p = gx.search([(n.id, "")], lambda x: x.id == gx.raise_exit.id, blocked=finalizes, blocked_edge=already_final, follow_exc=True)
+        if p is None:
+            ctx.ok("R10d", inst)
+        else:
+            ctx.fail("R10d", xu, n.ast, inst, "a path on which the command fails leaves _execute_uod_command by raising without "
+                     "finalizing the instance: it stays in uod.command_instances while its request is dropped, so Stop/Restart "
+                     "(which cancel the executing requests) never reach it and the next request of that command finds it", p)
+    fc = prog.func(f"{CMQ}._finalize_command")
+    ctx.analysed(fc)
+    gf = cfg_of(fc)
+    inst = "_finalize_command: the request is marked done on every path (also when finalize raises)"
+    p = gf.path_to_exit_avoiding(None, lambda n: node_calls(n, "_executing_command_done"), include_raise=True)
+    if p is None:
+        ctx.ok("R10d", inst)
+    else:
+        ctx.fail("R10d", fc, fc.node, inst, "a path through _finalize_command does not mark the request done", p)
